@@ -1,5 +1,9 @@
 """Constants / code shapes of /repo the C16 model depends on -> coq/Gen/C16.v (regenerated on every run, fail-closed).
 
+NEVER raises for an unexpected source shape: a constant that cannot be read becomes a sentinel value and its error text is
+listed in `generator_errors` (anchored to [] in Anchors.v), so an unexpected edit of the source shows up as a broken proof
+obligation (a VIOLATION of the check), never as a crash of the harness.
+
 Read from the imported module (values) and from the AST of component_media.py (shapes of the few expressions the model
 transliterates); anchored by `Example ..._anchor ... reflexivity` in coq/Media/Anchors.v, so an edit of any of them in the
 source breaks a proof obligation of Props/C16.v:
@@ -13,6 +17,8 @@ source breaks a proof obligation of Props/C16.v:
                          if-chain that turns Media.extend into `bases`, `getattr(media_input, "js"/"css", <default>)`
  * keeps_lists           the per-base merge keeps `_js_lists` / `_css_lists` (fix 488c746): attributes assigned on `media`
  * declared_extend_default   ComponentMediaInput.extend (documented default)
+ * post_init_test / check_pair_empty_body   the rejection test of __post_init__ (`is not None`, not truthiness) and the body
+                         of check_pair_empty (no write to any class: a lookup must not memoise)
  * css_list_medium       dict keys that _normalize_media gives to the str / list forms of Media.css
 """
 import ast
@@ -49,93 +55,133 @@ def _getattr_default(fn, obj, attr):
     return ast.unparse(_one(hits, "getattr(%s, %r, default)" % (obj, attr)).args[2])
 
 
+def _extract():
+    """dict name -> value; raises nothing: failures are recorded in out['errors']"""
+    out = {"errors": []}
+
+    def step(names, fn, sentinels):
+        try:
+            vals = fn()
+        except Exception as e:  # noqa - any unexpected shape
+            out["errors"].append("%s: %s: %s" % ("/".join(names), type(e).__name__, e))
+            vals = sentinels
+        for n, v in zip(names, vals):
+            out[n] = v
+
+    from django_components import component_media as cm
+    try:
+        tree = ast.parse(inspect.getsource(cm))
+    except Exception as e:  # noqa
+        out["errors"].append("source: %s" % e)
+        tree = ast.parse("")
+    BAD = "<gen_C16: unreadable>"
+
+    def lazy():
+        v = cm.COMP_MEDIA_LAZY_ATTRS
+        if not isinstance(v, tuple) or not all(isinstance(x, str) for x in v):
+            raise C.HarnessError("COMP_MEDIA_LAZY_ATTRS is not a tuple of str: %r" % (v,))
+        return [list(v)]
+    step(["lazy_attrs"], lazy, [[BAD]])
+
+    def fields():
+        fs = dataclasses.fields(cm.ComponentMedia)
+        ok = all((f.default is False) if f.name == "resolved" else (f.default is None) for f in fs if f.name != "comp_cls") \
+            and fs[0].name == "comp_cls" and fs[0].default is dataclasses.MISSING
+        return [[f.name for f in fs], ok]
+    step(["media_fields", "media_field_defaults_ok"], fields, [[BAD], False])
+
+    def post_init():
+        pi = _fn(tree, "__post_init__")
+        loop = _one([n for n in ast.walk(pi) if isinstance(n, ast.For)], "for loop in __post_init__")
+        inline_attrs = _consts(loop.iter, "__post_init__ loop tuple")
+        js_ = _one([n for n in ast.walk(pi) if isinstance(n, ast.Assign) and isinstance(n.value, ast.JoinedStr)
+                    and isinstance(n.targets[0], ast.Name) and n.targets[0].id == "file_attr"], "file_attr f-string")
+        parts = js_.value.values
+        if not (len(parts) == 2 and isinstance(parts[0], ast.FormattedValue) and isinstance(parts[0].value, ast.Name)
+                and parts[0].value.id == loop.target.id and isinstance(parts[1], ast.Constant)):
+            raise C.HarnessError("file_attr is not f\"{inlined_attr}<suffix>\"")
+        # the rejection test itself: `getattr(self, inlined_attr) is not None and getattr(self, file_attr) is not None`
+        test = _one([n for n in ast.walk(loop) if isinstance(n, ast.If)], "if in the __post_init__ loop")
+        return [inline_attrs, parts[1].value, ast.unparse(test.test)]
+    step(["post_init_inline_attrs", "post_init_file_suffix", "post_init_test"], post_init, [[BAD], BAD, BAD])
+
+    def attr_rules():
+        ga = _fn(tree, "_get_comp_cls_attr")
+        rules = []
+        for n in ast.walk(ga):
+            if isinstance(n, ast.If) and isinstance(n.test, ast.Compare) and isinstance(n.test.left, ast.Name) \
+                    and n.test.left.id == "attr" and len(n.test.ops) == 1 and isinstance(n.test.ops[0], ast.In):
+                tup = _consts(n.test.comparators[0], "attr in (...) tuple")
+                inner = _one([m for m in n.body if isinstance(m, ast.If)], "inner if of an attr rule")
+                call = inner.test
+                if not (isinstance(call, ast.Call) and isinstance(call.func, ast.Name) and call.func.id == "check_pair_empty"
+                        and all(isinstance(a, ast.Constant) for a in call.args)
+                        and len(inner.body) == 1 and isinstance(inner.body[0], ast.Continue)
+                        and len(inner.orelse) == 1 and isinstance(inner.orelse[0], ast.Return)
+                        and ast.unparse(inner.orelse[0]) == "return value"):
+                    raise C.HarnessError("unexpected shape of an attr rule in _get_comp_cls_attr")
+                rules.append((tup, [a.value for a in call.args]))
+        if not rules:
+            raise C.HarnessError("no attr rules found in _get_comp_cls_attr")
+        cpe = _fn(ga, "check_pair_empty")
+        return [rules, [ast.unparse(x) for x in cpe.body]]
+    step(["attr_rules", "check_pair_empty_body"], attr_rules, [[([BAD], [BAD])], [BAD]])
+
+    def media_fn():
+        gm = _fn(tree, "_get_comp_cls_media")
+        lookup = ast.unparse(_one([n for n in ast.walk(gm) if isinstance(n, ast.Assign) and isinstance(n.targets[0], ast.Name)
+                                   and n.targets[0].id == "media_input"], "assignment to media_input").value)
+        ext_default = _getattr_default(gm, "media_input", "extend")
+        js_default = _getattr_default(gm, "media_input", "js")
+        css_default = _getattr_default(gm, "media_input", "css")
+        chain = _one([n for n in ast.walk(gm) if isinstance(n, ast.If) and ast.unparse(n.test).startswith("media_extend is")
+                      and not any(isinstance(p, ast.If) and n in p.orelse for p in ast.walk(gm))], "if-chain on media_extend")
+        dispatch = []
+        node = chain
+        while True:
+            body = _one(node.body, "statement in a branch of the media_extend chain")
+            if not (isinstance(body, ast.Assign) and ast.unparse(body.targets[0]) == "bases"):
+                raise C.HarnessError("branch of the media_extend chain does not assign `bases`")
+            dispatch.append((ast.unparse(node.test), ast.unparse(body.value)))
+            if len(node.orelse) == 1 and isinstance(node.orelse[0], ast.If):
+                node = node.orelse[0]
+                continue
+            last = _one(node.orelse, "statement in the else branch of the media_extend chain")
+            if not (isinstance(last, ast.Assign) and ast.unparse(last.targets[0]) == "bases"):
+                raise C.HarnessError("else branch of the media_extend chain does not assign `bases`")
+            dispatch.append(("else", ast.unparse(last.value)))
+            break
+        base_loop = _one([n for n in ast.walk(gm) if isinstance(n, ast.For) and ast.unparse(n.iter) == "bases"
+                          and isinstance(n.target, ast.Name)], "`for base in bases` loop")
+        assigned = sorted(ast.unparse(n.targets[0]) + " = " + ast.unparse(n.value) for n in ast.walk(base_loop)
+                          if isinstance(n, ast.Assign) and ast.unparse(n.targets[0]).startswith(("media", "merged_media")))
+        return [lookup, ext_default, js_default, css_default, dispatch, assigned]
+    step(["media_lookup_expr", "extend_default", "js_default", "css_default", "extend_dispatch", "base_loop_assignments"],
+         media_fn, [BAD, BAD, BAD, BAD, [(BAD, BAD)], [BAD]])
+
+    def norm_keys():
+        nm = _fn(tree, "_normalize_media")
+        return [sorted({k.value for n in ast.walk(nm) if isinstance(n, ast.Dict) for k in n.keys
+                        if isinstance(k, ast.Constant) and isinstance(k.value, str)})]
+    step(["css_list_medium"], norm_keys, [[BAD]])
+    step(["declared_extend_default"], lambda: [getattr(cm.ComponentMediaInput, "extend", None) is True], [False])
+    return out
+
+
 @generator
 def gen_C16():
-    from django_components import component_media as cm
-    lazy = cm.COMP_MEDIA_LAZY_ATTRS
-    if not isinstance(lazy, tuple) or not all(isinstance(x, str) for x in lazy):
-        raise C.HarnessError("gen_C16: COMP_MEDIA_LAZY_ATTRS is not a tuple of str: %r" % (lazy,))
-    fields = dataclasses.fields(cm.ComponentMedia)
-    names = [f.name for f in fields]
-    defaults_ok = all((f.default is False) if f.name == "resolved" else (f.default is None)
-                      for f in fields if f.name != "comp_cls") and fields[0].name == "comp_cls" \
-        and fields[0].default is dataclasses.MISSING
-    tree = ast.parse(inspect.getsource(cm))
-
-    # ComponentMedia.__post_init__
-    pi = _fn(tree, "__post_init__")
-    loop = _one([n for n in ast.walk(pi) if isinstance(n, ast.For)], "for loop in __post_init__")
-    inline_attrs = _consts(loop.iter, "__post_init__ loop tuple")
-    js_ = _one([n for n in ast.walk(pi) if isinstance(n, ast.Assign) and isinstance(n.value, ast.JoinedStr)
-                and isinstance(n.targets[0], ast.Name) and n.targets[0].id == "file_attr"], "file_attr f-string")
-    parts = js_.value.values
-    if not (len(parts) == 2 and isinstance(parts[0], ast.FormattedValue) and isinstance(parts[0].value, ast.Name)
-            and parts[0].value.id == loop.target.id and isinstance(parts[1], ast.Constant)):
-        raise C.HarnessError("gen_C16: file_attr is not f\"{inlined_attr}<suffix>\"")
-    suffix = parts[1].value
-
-    # _get_comp_cls_attr
-    ga = _fn(tree, "_get_comp_cls_attr")
-    rules = []
-    for n in ast.walk(ga):
-        if isinstance(n, ast.If) and isinstance(n.test, ast.Compare) and isinstance(n.test.left, ast.Name) \
-                and n.test.left.id == "attr" and len(n.test.ops) == 1 and isinstance(n.test.ops[0], ast.In):
-            tup = _consts(n.test.comparators[0], "attr in (...) tuple")
-            inner = _one([m for m in n.body if isinstance(m, ast.If)], "inner if of an attr rule")
-            call = inner.test
-            if not (isinstance(call, ast.Call) and isinstance(call.func, ast.Name) and call.func.id == "check_pair_empty"
-                    and all(isinstance(a, ast.Constant) for a in call.args)
-                    and len(inner.body) == 1 and isinstance(inner.body[0], ast.Continue)
-                    and len(inner.orelse) == 1 and isinstance(inner.orelse[0], ast.Return)
-                    and ast.unparse(inner.orelse[0]) == "return value"):
-                raise C.HarnessError("gen_C16: unexpected shape of an attr rule in _get_comp_cls_attr")
-            rules.append((tup, [a.value for a in call.args]))
-    if not rules:
-        raise C.HarnessError("gen_C16: no attr rules found in _get_comp_cls_attr")
-
-    # _get_comp_cls_media
-    gm = _fn(tree, "_get_comp_cls_media")
-    lookup = ast.unparse(_one([n for n in ast.walk(gm) if isinstance(n, ast.Assign) and isinstance(n.targets[0], ast.Name)
-                               and n.targets[0].id == "media_input"], "assignment to media_input").value)
-    ext_default = _getattr_default(gm, "media_input", "extend")
-    js_default = _getattr_default(gm, "media_input", "js")
-    css_default = _getattr_default(gm, "media_input", "css")
-    chain = _one([n for n in ast.walk(gm) if isinstance(n, ast.If) and ast.unparse(n.test).startswith("media_extend is")
-                  and not any(isinstance(p, ast.If) and n in p.orelse for p in ast.walk(gm))], "if-chain on media_extend")
-    dispatch = []
-    node = chain
-    while True:
-        body = _one(node.body, "statement in a branch of the media_extend chain")
-        if not (isinstance(body, ast.Assign) and ast.unparse(body.targets[0]) == "bases"):
-            raise C.HarnessError("gen_C16: branch of the media_extend chain does not assign `bases`")
-        dispatch.append((ast.unparse(node.test), ast.unparse(body.value)))
-        if len(node.orelse) == 1 and isinstance(node.orelse[0], ast.If):
-            node = node.orelse[0]
-            continue
-        last = _one(node.orelse, "statement in the else branch of the media_extend chain")
-        if not (isinstance(last, ast.Assign) and ast.unparse(last.targets[0]) == "bases"):
-            raise C.HarnessError("gen_C16: else branch of the media_extend chain does not assign `bases`")
-        dispatch.append(("else", ast.unparse(last.value)))
-        break
-    base_loop = _one([n for n in ast.walk(gm) if isinstance(n, ast.For) and ast.unparse(n.iter) == "bases"
-                      and isinstance(n.target, ast.Name)], "`for base in bases` loop")
-    assigned = sorted(ast.unparse(n.targets[0]) + " = " + ast.unparse(n.value) for n in ast.walk(base_loop)
-                      if isinstance(n, ast.Assign) and ast.unparse(n.targets[0]).startswith(("media", "merged_media")))
-
-    # _normalize_media: keys of the dict literals built for the str / list forms of css
-    nm = _fn(tree, "_normalize_media")
-    keys = sorted({k.value for n in ast.walk(nm) if isinstance(n, ast.Dict) for k in n.keys
-                   if isinstance(k, ast.Constant) and isinstance(k.value, str)})
-
-    decl_ext = getattr(cm.ComponentMediaInput, "extend", None)
+    v = _extract()
     pairs = lambda xs: "[" + "; ".join("(%s, %s)" % (coq_str_list(a), coq_str_list(b)) for a, b in xs) + "]"  # noqa: E731
     spairs = lambda xs: "[" + "; ".join("(%s, %s)" % (C.cstr(a), C.cstr(b)) for a, b in xs) + "]"  # noqa: E731
-    return ("Definition lazy_attrs : list str := %s.\n"
+    return ("Definition generator_errors : list str := %s.\n"
+            "Definition lazy_attrs : list str := %s.\n"
             "Definition media_fields : list str := %s.\n"
             "Definition media_field_defaults_ok : bool := %s.\n"
             "Definition post_init_inline_attrs : list str := %s.\n"
             "Definition post_init_file_suffix : str := %s.\n"
+            "Definition post_init_test : str := %s.\n"
             "Definition attr_rules : list (list str * list str) := %s.\n"
+            "Definition check_pair_empty_body : list str := %s.\n"
             "Definition media_lookup_expr : str := %s.\n"
             "Definition extend_default : str := %s.\n"
             "Definition js_default : str := %s.\n"
@@ -144,6 +190,8 @@ def gen_C16():
             "Definition base_loop_assignments : list str := %s.\n"
             "Definition declared_extend_default : bool := %s.\n"
             "Definition css_list_medium : list str := %s.\n"
-            % (coq_str_list(lazy), coq_str_list(names), C.cbool(defaults_ok), coq_str_list(inline_attrs), C.cstr(suffix),
-               pairs(rules), C.cstr(lookup), C.cstr(ext_default), C.cstr(js_default), C.cstr(css_default),
-               spairs(dispatch), coq_str_list(assigned), C.cbool(decl_ext is True), coq_str_list(keys)))
+            % (coq_str_list(v["errors"]), coq_str_list(v["lazy_attrs"]), coq_str_list(v["media_fields"]), C.cbool(v["media_field_defaults_ok"]),
+               coq_str_list(v["post_init_inline_attrs"]), C.cstr(v["post_init_file_suffix"]), C.cstr(v["post_init_test"]),
+               pairs(v["attr_rules"]), coq_str_list(v["check_pair_empty_body"]), C.cstr(v["media_lookup_expr"]),
+               C.cstr(v["extend_default"]), C.cstr(v["js_default"]), C.cstr(v["css_default"]), spairs(v["extend_dispatch"]),
+               coq_str_list(v["base_loop_assignments"]), C.cbool(v["declared_extend_default"]), coq_str_list(v["css_list_medium"])))
